@@ -317,6 +317,9 @@ impl Ctx<'_> {
             ("1.0", 14, vec!["float", "int|float", "any"]),
             ("()", 15, vec!["()", "int|()", "any"]),
             ("true", 16, vec!["bool", "bool|int", "any"]),
+            ("false", 19, vec!["bool", "bool|int", "any"]),
+            ("0", 20, vec!["int", "int|bool", "any"]),
+            ("\"\"", 21, vec!["string", "any"]),
             ("[struct{a := 1}]", 17, vec!["[struct{a: int}]", "[struct{a: int|float}]", "[struct{}]", "[any]", "any"]),
             ("(struct{a := 1}, 2)", 18, vec!["(struct{a: int}, int)", "(struct{a: any}, int)", "(struct{}, any)", "any"]),
         ];
@@ -330,6 +333,27 @@ impl Ctx<'_> {
                             continue;
                         }
                         let expected = ia == ib;
+                        // one operand a literal in the function text (known while folding), the other a parameter
+                        if *tb == viewsb[0] {
+                            let half = format!(
+                                "f := (x: {ta}) -> (bool, bool, bool, bool) {{ m := match x {{ {vb} => true, => false, }}; return (x == {vb}, {vb} == x, x != {vb}, m) }}; f({va})"
+                            );
+                            self.rep.evaluations += 1;
+                            self.rep.count("static-view-half-constant");
+                            match eval_bools(&half) {
+                                Ok(v) if v.len() == 4 => {
+                                    for (op, got, want) in [("==", v[0], expected), ("==(sym)", v[1], expected), ("!=", v[2], !expected), ("match-value-arm", v[3], expected)] {
+                                        if got != want {
+                                            let key = format!("c19:static-view-half-constant:{op}:expected-{want}");
+                                            self.rep.violation(&key, &format!("{op} gave {got}, expected {want}: {va} seen as {ta} vs the literal {vb} :: {half}"), "c19", &half);
+                                        }
+                                    }
+                                }
+                                Ok(v) => self.rep.violation("c19:static-view:arity", &format!("{half}: {v:?}"), "c19", &half),
+                                Err(why) if why.starts_with("rejected") => self.rep.count("static-view-rejected"),
+                                Err(why) => self.rep.violation(&format!("c19:static-view:eval:{}", truncate(&why, 60)), &format!("{half}: {why}"), "c19", &half),
+                            }
+                        }
                         let src = format!(
                             "f := (x: {ta}, y: {tb}) -> (bool, bool, bool, bool) {{ m := match x {{ y => true, => false, }}; return (x == y, y == x, x != y, m) }}; f({va}, {vb})"
                         );
